@@ -2,7 +2,7 @@
 import os
 from lib import engine, native
 from lib.core import tier, VERIF
-from units import k07_reducers, k04_update
+from units import k07_reducers, k04_update, k08_bodies
 from . import common
 
 LEVEL = "other"
@@ -18,7 +18,13 @@ EXPLANATION = (
     "mcb_sva_signed_mpi writes only rows of its own sub-range of (k, csd) - the range expression is extracted from "
     "the parallel_for call -, computes each written row as a function of (own row, row k, cyclek) only, and row k "
     "lies outside every task's range; lemma: tasks on disjoint sub-ranges have disjoint write sets (race freedom "
-    "of the one region that shares mutable state).  BOUNDED stand-in: all six entry points compiled UNCHANGED "
+    "of the one region that shares mutable state).  PROVED by CBMC, modularly against the callee contracts K9 / K11 (calls "
+    "replaced by the contract, loop contracts, ghost tables of the true answers): each reduce BODY (signed: all-vertices "
+    "and hidden-chain; tree lookup) is an accumulating fold - never worse than the running value it is given, at least as "
+    "good as every candidate of its sub-range, passes the running value as pruning limit, and in hidden-chain mode hands the "
+    "callee exactly the chain suffix; the chain tables themselves (signed_edges_as_vector, hidden_edges_per_edge) are built "
+    "correctly by find_less_than_vertices (K8a).  Schedule independence then follows by induction over the split tree (paper "
+    "argument).  BOUNDED stand-in: all six entry points compiled UNCHANGED "
     "against an executable contract model of TBB whose scheduler freedom is a choice tape (any partition, either "
     "order of halves, any split tree, leaf chains from the identity, any insertion position of concurrent "
     "push_backs): odometer enumeration (exhaustive where it terminates under the cap) plus seeded tapes, "
@@ -29,6 +35,7 @@ EXPLANATION = (
 
 def run(rep):
     specs = k07_reducers.units(tier()) + k04_update.units(tier(), which=("K5",))
+    specs += [u for u in k08_bodies.units(tier()) if "mpi" not in u.get("unit", "")]
     engine.run_units(rep, specs)
     bins = native.build_many([
         dict(name="e3_tbb", incfirst=(os.path.join(VERIF, "stubs/tbb_contract"),), libs=("-lboost_timer",)),
@@ -37,7 +44,7 @@ def run(rep):
     fn = {"mcb_sva_signed_tbb": "bounded(schedules)", "mcb_sva_fvs_trees_tbb": "bounded(schedules)",
           "mcb_sva_iso_trees_tbb": "bounded(schedules)", "approx_mcb_sva_signed_tbb": "bounded(schedules)",
           "approx_mcb_sva_fvs_trees_tbb": "bounded(schedules)", "approx_mcb_sva_iso_trees_tbb": "bounded(schedules)",
-          "reduce bodies (K8)": "bounded(schedules)"}
+          }
     r = native.run_driver(bins["e3_tbb"], "e3_tbb[contract model]", functions=fn,
                           assumptions=["stubs/tbb_contract is the assumed contract of oneTBB; tasks run one at a time in the model (orders, not simultaneity)",
                                        "update_parities writes only nodes owned by its own tree; approximate builder tasks write only task-local objects and concurrent_vectors (ownership arguments, not verified)"],
